@@ -149,9 +149,14 @@ def emit_struct(s, out, allD):
         ctor = "%s(%s)" % (s.name, ", ".join("<%s as VT>::any()" % f for f in ft))
     else:
         ctor = "%s { %s }" % (s.name, ", ".join("f%d: <%s as VT>::any()" % (i, f) for i, f in enumerate(ft)))
-    out.append("impl VT for %s {\n    fn any() -> Self { %s }\n    fn enc(&self, out: &mut RefBuf) { %s }\n    fn same(&self, o: &Self) -> bool { %s }\n}" % (
-        inst, ctor, " ".join("%s.enc(out);" % acc(i) for i in range(len(ft))) or "let _ = out;",
-        " && ".join("%s.same(&%s)" % (acc(i), oacc(i)) for i in range(len(ft))) or "let _ = o; true"))
+    fixed = "match (%s) { (%s) => Some(0 %s), _ => None }" % (
+        "".join("<%s as VT>::FIXED, " % f for f in ft), "".join("Some(a%d), " % i for i in range(len(ft))),
+        "".join("+ a%d " % i for i in range(len(ft)))) if ft else "Some(0)"
+    out.append("impl VT for %s {\n    const FIXED: Option<usize> = %s;\n    fn any() -> Self { %s }\n    fn enc(&self, out: &mut RefBuf) { %s }\n    fn same(&self, o: &Self) -> bool { %s }\n    fn valid(&self) -> bool { %s }\n    fn wire_len(&self) -> u128 { %s }\n}" % (
+        inst, fixed, ctor, " ".join("%s.enc(out);" % acc(i) for i in range(len(ft))) or "let _ = out;",
+        " && ".join("%s.same(&%s)" % (acc(i), oacc(i)) for i in range(len(ft))) or "let _ = o; true",
+        " && ".join("%s.valid()" % acc(i) for i in range(len(ft))) or "true",
+        " + ".join("%s.wire_len()" % acc(i) for i in range(len(ft))) or "0"))
     return inst
 
 def emit_enum(e, out):
@@ -168,18 +173,30 @@ def emit_enum(e, out):
     ds = e.dsize()
     it = {1: "u8", 2: "u16", 4: "u32"}[ds]
     nv = len(e.variants)
-    anyarms, encarms, samearms = [], [], []
+    anyarms, encarms, samearms, validarms, wirearms = [], [], [], [], []
+    discr, cur = [], 0
+    for (n, k, f, d) in e.variants:
+        if d is not None: cur = d
+        discr.append(cur); cur += 1
+    for i in range(e.many):
+        discr.append(cur); cur += 1
     for idx, (n, k, f, d) in enumerate(e.variants):
         pat = "%d" % idx if idx < nv - 1 else "_"
         if k == "unit":
             anyarms.append("%s => %s::%s" % (pat, e.name, n))
             encarms.append("%s::%s => { out.put(&(%d as %s).to_le_bytes()); }" % (e.name, n, idx, it))
             samearms.append("(%s::%s, %s::%s) => true" % (e.name, n, e.name, n))
+            validarms.append("%s::%s => true" % (e.name, n))
+            wirearms.append("%s::%s => %d" % (e.name, n, ds))
         elif k == "tuple":
+            validarms.append("%s::%s(%s) => %s" % (e.name, n, ", ".join("x%d" % i for i in range(len(f))), " && ".join("x%d.valid()" % i for i in range(len(f)))))
+            wirearms.append("%s::%s(%s) => %d + %s" % (e.name, n, ", ".join("x%d" % i for i in range(len(f))), ds, " + ".join("x%d.wire_len()" % i for i in range(len(f)))))
             anyarms.append("%s => %s::%s(%s)" % (pat, e.name, n, ", ".join("<%s as VT>::any()" % t for t in f)))
             encarms.append("%s::%s(%s) => { out.put(&(%d as %s).to_le_bytes()); %s }" % (e.name, n, ", ".join("x%d" % i for i in range(len(f))), idx, it, " ".join("x%d.enc(out);" % i for i in range(len(f)))))
             samearms.append("(%s::%s(%s), %s::%s(%s)) => %s" % (e.name, n, ", ".join("a%d" % i for i in range(len(f))), e.name, n, ", ".join("b%d" % i for i in range(len(f))), " && ".join("a%d.same(b%d)" % (i, i) for i in range(len(f)))))
         else:
+            validarms.append("%s::%s { %s } => %s" % (e.name, n, ", ".join("g%d" % i for i in range(len(f))), " && ".join("g%d.valid()" % i for i in range(len(f)))))
+            wirearms.append("%s::%s { %s } => %d + %s" % (e.name, n, ", ".join("g%d" % i for i in range(len(f))), ds, " + ".join("g%d.wire_len()" % i for i in range(len(f)))))
             anyarms.append("%s => %s::%s { %s }" % (pat, e.name, n, ", ".join("g%d: <%s as VT>::any()" % (i, t) for i, t in enumerate(f))))
             encarms.append("%s::%s { %s } => { out.put(&(%d as %s).to_le_bytes()); %s }" % (e.name, n, ", ".join("g%d" % i for i in range(len(f))), idx, it, " ".join("g%d.enc(out);" % i for i in range(len(f)))))
             samearms.append("(%s::%s { %s }, %s::%s { %s }) => %s" % (e.name, n, ", ".join("g%d: a%d" % (i, i) for i in range(len(f))), e.name, n, ", ".join("g%d: b%d" % (i, i) for i in range(len(f))), " && ".join("a%d.same(b%d)" % (i, i) for i in range(len(f)))))
@@ -191,8 +208,17 @@ def emit_enum(e, out):
         encarms.append("%s::Z%d => { out.put(&(%d as %s).to_le_bytes()); }" % (e.name, e.many - 1, last, it))
         encarms.append("_ => { assume(false); }")
         samearms.append("(%s::Z%d, %s::Z%d) => true" % (e.name, e.many - 1, e.name, e.many - 1))
-    out.append("impl VT for %s {\n    fn any() -> Self { match anyv::<u8>() %% %d { %s } }\n    fn enc(&self, out: &mut RefBuf) { match self { %s } }\n    #[allow(unreachable_patterns)]\n    fn same(&self, o: &Self) -> bool { match (self, o) { %s, _ => false } }\n}" % (
-        e.name, len(anyarms), ", ".join(anyarms), " ".join(encarms), ", ".join(samearms)))
+    tagcheck = ""
+    if e.repr and any(r.strip() in ("u8", "u16", "u32", "i8", "i16", "i32") for r in e.repr.split(",")):
+        rt = [r.strip() for r in e.repr.split(",") if r.strip() != "C"][0]
+        tagcheck = "let tag = unsafe { *(self as *const Self as *const %s) }; if !(%s) { return false; } " % (rt, " || ".join("tag == %d" % d for d in discr))
+    if e.many:
+        validarms.append("_ => true")
+        wirearms.append("_ => %d" % ds)
+    allunit = all(k == "unit" for (_n, k, _f, _d) in e.variants)
+    fixed = "Some(%d)" % ds if allunit else "None"
+    out.append("impl VT for %s {\n    const FIXED: Option<usize> = %s;\n    fn any() -> Self { match anyv::<u8>() %% %d { %s } }\n    fn enc(&self, out: &mut RefBuf) { match self { %s } }\n    #[allow(unreachable_patterns)]\n    fn same(&self, o: &Self) -> bool { match (self, o) { %s, _ => false } }\n    fn valid(&self) -> bool { %smatch self { %s } }\n    fn wire_len(&self) -> u128 { match self { %s } }\n}" % (
+        e.name, fixed, len(anyarms), ", ".join(anyarms), " ".join(encarms), ", ".join(samearms), tagcheck, ", ".join(validarms), ", ".join(wirearms)))
     return e.name
 
 def gen_dtypes():
